@@ -481,6 +481,19 @@ class FnVerifier(Verifier):
             self._old_stack = [self.entry]          # old() in loop invariants refers to the function entry
             outs = self.exec_block(st, self.fn.body)
             nret = 0
+            # vacuity guard: an exit whose path condition is contradictory (an inconsistent assumed contract, or a
+            # path that branch pruning did not see die) proves nothing and is not counted as a reached exit
+            live, dead, dead_sites = [], 0, set()
+            for o in outs:
+                if o.kind in ('ok', 'ret') or (o.kind == 'exc' and o.exc in self.ctr.raises):
+                    if smt.feasible(o.st.pc, timeout_ms=1500):
+                        live.append(o)
+                    else:
+                        dead += 1
+                        dead_sites.add(o.site or 'end')
+                else:
+                    live.append(o)
+            outs = live
             for o in outs:
                 if o.kind in ('ok', 'ret'):
                     nret += 1
@@ -495,6 +508,19 @@ class FnVerifier(Verifier):
                             g = o.st.fork()
                             g.pc += new
                             self.oblige('raises:%s:only-when' % o.exc, g, t)
+                        for ci, cl in enumerate(self.ctr.raises_ensures.get(o.exc, [])):
+                            if o.val is None:
+                                raise OutOfSubset('raised %s object is not modelled (no constructor contract)' % o.exc)
+                            g = o.st.fork()
+                            g.env = dict(self.entry.env)
+                            g.env['exc'] = o.val
+                            self._old_stack.append(self.entry)
+                            try:
+                                t, new = self.spec_eval(g, cl)
+                            finally:
+                                self._old_stack.pop()
+                            g.pc += new
+                            self.oblige('raises:%s:carries:%d' % (o.exc, ci), g, t)
                     else:
                         nm = 'safe:%s' % (o.site or o.exc)
                         if not o.site or o.exc not in o.site:
@@ -505,7 +531,7 @@ class FnVerifier(Verifier):
             if nret == 0:
                 self.note('cover:exit', UNDECIDED, 'no path reaches a return: vacuous')
             else:
-                self.note('cover:exit', DISCHARGED, '%d paths reach an exit' % nret)
+                self.note('cover:exit', DISCHARGED, '%d paths reach an exit%s' % (nret, ' (%d contradictory exits dropped at %s)' % (dead, sorted(dead_sites)) if dead else ''))
         except BindingError as e:
             self.obs.append(Ob('%s#binding' % self.key, 'D', 'vcgen', UNDECIDED, 0.0,
                                'binding error: %s' % e, functions=[self.qual]))
